@@ -107,7 +107,8 @@ def make_processor(kind="ccd"):
     det = {"ccd": CCD, "cmos": CMOS, "mkid": MKID, "apd": APD}[kind](geometry=geo, environment=env, characteristics=chars)
     pipe = DetectionPipeline(
         # 'm2' exists twice: enabled here, disabled (and addressed by the sweeps) in charge_generation
-        photon_collection=[ModelFunction(func="harness.settings.snap", name="m1", arguments={"a": "init", "b": "init"}),
+        photon_collection=[ModelFunction(func="harness.settings.snap", name="m1",
+                                         arguments={"a": "init", "b": "init", "opt": {"level": "init", "keep": "init"}}),
                            ModelFunction(func="harness.settings.snap", name="m2", arguments={"z": "init"})],
         charge_generation=[ModelFunction(func="harness.settings.snap", name="m2", enabled=False, arguments={"c": "init"})],
         charge_measurement=[ModelFunction(func="harness.settings.snap", name="watch", arguments={})])
@@ -137,7 +138,11 @@ def snapshot(proc, kind) -> dict:
                 continue
             out[("pipeline", gname, m.name, "enabled")] = canon(m.enabled)
             for a, v in m.arguments.items():
-                out[("pipeline", gname, m.name, "arguments", a)] = canon(v)
+                if isinstance(v, dict):          # the entries of a dictionary-valued argument are settings of their own
+                    for k2, v2 in v.items():
+                        out[("pipeline", gname, m.name, "arguments", a, k2)] = canon(v2)
+                else:
+                    out[("pipeline", gname, m.name, "arguments", a)] = canon(v)
             for attr in vars(m):
                 if attr not in ("_func_name", "_func", "_name", "enabled", "_arguments"):
                     out[("pipeline", gname, m.name, "NEW", attr)] = canon(repr(vars(m)[attr]))
@@ -147,6 +152,8 @@ def snapshot(proc, kind) -> dict:
 def leaves_of(kind):
     ls = [["detector", s, f] for s, names in fields(kind).items() for f in names]
     ls += [["pipeline", "photon_collection", "m1", "arguments", "a"], ["pipeline", "photon_collection", "m1", "arguments", "b"],
+           ["pipeline", "photon_collection", "m1", "arguments", "opt", "level"],
+           ["pipeline", "photon_collection", "m1", "arguments", "opt", "keep"],
            ["pipeline", "photon_collection", "m1", "enabled"],
            ["pipeline", "photon_collection", "m2", "arguments", "z"], ["pipeline", "photon_collection", "m2", "enabled"],
            ["pipeline", "charge_generation", "m2", "arguments", "c"], ["pipeline", "charge_generation", "m2", "enabled"]]
@@ -201,7 +208,10 @@ def run_history(case: dict) -> dict:
                     setattr(obj, key[2], value)
                     after = snapshot(proc, kind)
                 elif path == "construct":
-                    geo, env, chars = make_sections(kind, {key[1]: {key[2]: value}})
+                    over = {key[1]: {key[2]: value}}
+                    if op.get("with"):        # a second setting given in the same constructor call
+                        over.setdefault(op["with"]["key"][1], {})[op["with"]["key"][2]] = decanon(op["with"]["val"])
+                    geo, env, chars = make_sections(kind, over)
                     newp = copy.copy(proc)
                     after = dict(before)
                     obj = {"geometry": geo, "environment": env, "characteristics": chars}[key[1]]
@@ -214,7 +224,10 @@ def run_history(case: dict) -> dict:
                                 after[("detector", key[1], name)] = canon(v)
                     after[tuple(key)] = canon(getattr(obj, key[2]))
                 elif path == "yaml":
-                    doc = yaml_doc(kind, {key[1]: {key[2]: value}})
+                    over = {key[1]: {key[2]: value}}
+                    if op.get("with"):
+                        over.setdefault(op["with"]["key"][1], {})[op["with"]["key"][2]] = decanon(op["with"]["val"])
+                    doc = yaml_doc(kind, over)
                     conf = pyxel.loads(doc)
                     p2 = type(proc)(detector=conf.detector, pipeline=proc.pipeline)
                     s2 = snapshot(p2, kind)
@@ -255,6 +268,8 @@ def run_history(case: dict) -> dict:
             stored = after.get(tuple(key), {"k": "txt", "c": "MISSING"})
         ev = {"path": path, "key": key, "text": text, "val": op.get("val") or {"k": "txt", "c": ""}, "out": out,
               "changed": changed, "stored": stored or {"k": "txt", "c": ""}, "ran": bool(ran), "why": why}
+        if op.get("with"):
+            ev["key2"], ev["val2"] = list(op["with"]["key"]), op["with"]["val"]
         events.append(ev)
     disabled = [["pipeline", "charge_generation", "m2"]]
     return {"leaves": leaves, "disabled": disabled, "tree0": tree0, "events": events, "case": case}
